@@ -13,17 +13,8 @@ def dir_write_fn(fn):
 
 
 def spill_fns(ctx):
-    """local functions that write a Directory to a seekable stream parameter and return leaf bytes (Result<Vec<u8>>): the
-    root-directory writers"""
-    out = []
-    for f in ctx.user_fns():
-        if "Vec<u8>" not in f["ret"] and "Vec<u8>" not in str(f["ret"]):
-            continue
-        cs = [c["fn"] for c in calls(f["body"])]
-        has_stream_param = any(absint_is_streamlike(p.get("ty") or "") for p in f["params"])
-        if has_stream_param and any(dir_write_fn(c) for c in cs) and any(c in ("std::io::Seek::stream_position", "futures_util::io::AsyncSeekExt::stream_position", "std::io::Seek::seek", "futures_util::io::AsyncSeekExt::seek") for c in cs):
-            out.append(f)
-    return out
+    """the root-directory writers (see rulebase.spill_role_fns)"""
+    return spill_role_fns(ctx.facts)
 
 
 def norm_bound(cond, outcome):
